@@ -41,6 +41,12 @@ def run(ctx):
     # store lock), so the id-counter discipline is a necessary condition of "one result per scene, no deadlock"
     from props import C01
     C01.r3(ctx, 'R06.4')
+    C01.shared_counter(ctx, 'R06.4')
+    import wiring
+    ctx.rule('R06.5', 'both front ends configure the shared components identically (constructor plumbing)')
+    ctx.floor('R06.5', wiring.run(ctx, 'R06.5', {'max_idle_epochs', 'history_length', 'position_weight',
+                                                 'velocity_weight', 'spatio_temporal_constraints', 'method',
+                                                 'min_confidence', 'shards'}), 60)
     ctx.rule('R06.4', 'shared id counter: increment and read under one write access (necessary for one result per scene)')
 
 
@@ -352,7 +358,8 @@ VOCAB = {
     'trackers::visual_sort::observation_attributes::VisualObservationAttributes::new',
     'track::utils::FromVec::from_vec', 'track::store::TrackStore::shard_stats',
     'track::store::track_distance::TrackDistanceOk::all', 'track::store::track_distance::TrackDistanceErr::all',
-    'rand::Rng::gen', 'rand::Rng::r#gen',
+    'rand::Rng::gen', 'rand::Rng::r#gen', 'std::iter::Extend::extend', 'std::vec::Vec::extend_from_slice',
+    'std::vec::Vec::append', 'std::vec::Vec::clear', 'std::vec::Vec::reserve',
 }
 # semantic differences that are part of the design of the batch variant (explicit difference table)
 DIFF_ALLOWED = {
